@@ -12,7 +12,7 @@ from math import gcd as igcd
 
 from .term import AnalysisError, AbstractValue, Term
 from .fieldmodel import FieldVal
-from .kpoly import KT, gcd, squarefree, coprime_part
+from .kpoly import KT, gcd, squarefree, coprime_part, rational_part, has_root
 
 
 def k_of(K, o):
@@ -237,8 +237,11 @@ class SWCtx:
         if E.is_zero():
             return True
         if self.M is not None:
-            return False if gcd(E, self.M).is_const() else None
-        return False if coprime_part(E, self.nzprod()).is_const() else None
+            return False if gcd(E, self.M).is_const() else None        # M has only roots in K (rational_part)
+        g = coprime_part(E, self.nzprod())
+        if g.is_const() or not has_root(g):
+            return False            # every root of E in K is excluded by the path, or E has no root in K at all
+        return None
 
 
 class SW(AbstractValue):
@@ -353,7 +356,7 @@ class SWCond(AbstractValue):
         zero = (truth == self.eq)
         if cx.M is None:
             if zero:
-                cx.M = squarefree(f)
+                cx.M = rational_part(squarefree(f))      # the path runs over the roots of f in K
             else:
                 cx.nonzero.append(f)
         else:
